@@ -158,6 +158,14 @@ func (s *scen) release(t int) {
 var errTask = errors.New("task failed")
 
 func (s *scen) task(t int) sched.Runnable {
+	// outcome 3: a nil Runnable, 4: a typed-nil Runnable.  Execute accepts them like any other value;
+	// running them is a nil dereference inside run(), i.e. a task that panics (and has no body of
+	// its own that could be observed)
+	if outcome, _ := s.kinds(t); outcome == 3 {
+		return nil
+	} else if outcome == 4 {
+		return (*sched.Task)(nil)
+	}
 	return sched.NewTask(func() error {
 		outcome, gated := s.kinds(t)
 		n := atomic.AddInt64(&s.inflight, 1)
@@ -943,7 +951,8 @@ type withSlice struct {
 	data []int
 }
 
-var shapeNames = []string{"string", "error", "runtime.Error", "int", "nil", "slice", "map", "func", "struct with slice", "pointer", "slice-typed error"}
+var shapeNames = []string{"string", "error", "runtime.Error", "int", "nil", "slice", "map", "func", "struct with slice", "pointer", "slice-typed error",
+	"nil Runnable", "typed-nil Runnable"}
 
 func panicWith(shape int) {
 	switch shape {
@@ -980,22 +989,30 @@ func childMain(spec string) {
 	var runs [5]int32
 	for i := 0; i < 5; i++ {
 		i := i
-		Catch(func() {
-			e.Execute(sched.NewTask(func() error {
-				atomic.AddInt32(&runs[i], 1)
-				if i == 1 || i == 3 {
-					panicWith(shape)
-				}
-				return nil
-			}))
+		var r sched.Runnable = sched.NewTask(func() error {
+			atomic.AddInt32(&runs[i], 1)
+			if i == 1 || i == 3 {
+				panicWith(shape)
+			}
+			return nil
 		})
+		if (i == 1 || i == 3) && shape == 11 {
+			r = nil // no body of its own: running it is a nil dereference inside run()
+		} else if (i == 1 || i == 3) && shape == 12 {
+			r = (*sched.Task)(nil)
+		}
+		Catch(func() { e.Execute(r) })
+	}
+	want := int32(5)
+	if shape >= 11 {
+		want = 3
 	}
 	for dl := time.Now().Add(3 * time.Second); time.Now().Before(dl); time.Sleep(time.Millisecond) {
 		n := int32(0)
 		for i := range runs {
 			n += atomic.LoadInt32(&runs[i])
 		}
-		if n >= 5 {
+		if n >= want {
 			break
 		}
 	}
@@ -1037,9 +1054,18 @@ func runPanicShape(in Sx) Sx {
 		if n, _ := fmt.Sscanf(outb.String()[i:], "RESULT %d %d %d %d %d %d", &r[0], &r[1], &r[2], &r[3], &r[4], &ret); n == 6 {
 			st = []int{1, 1, 1, 1, 1}
 			runs = r[:]
+			if shape >= 11 { // nil Runnables have no body that could count its runs
+				st[1], st[3] = 5, 5
+			}
 		}
 	}
-	return List(ints(st), ints([]int{1, 1, 1, 1, 1}), ints(runs), ints(runs), List(Int(0), Int(int64(ret)), Bool(inconclusive),
+	early := []int{1, 1, 1, 1, 1}
+	for i, x := range st {
+		if x == 5 {
+			early[i] = 0
+		}
+	}
+	return List(ints(st), ints(early), ints(runs), ints(runs), List(Int(0), Int(int64(ret)), Bool(inconclusive),
 		Int(0), Int(0), Bool(true), Bool(false), Int(0), Bool(false)))
 }
 
@@ -1261,7 +1287,7 @@ func genScript(rng *Rng, directed int) Sx {
 			addExec(0, true)
 		}
 		for j := 0; j < capacity; j++ {
-			addExec(rng.PickInt(0, 0, 1, 2), false)
+			addExec(rng.PickInt(0, 0, 1, 2, 3, 4), false)
 		}
 		ops = append(ops, Ints(2))
 		for j := 0; j < nw; j++ {
@@ -1299,7 +1325,11 @@ func genScript(rng *Rng, directed int) Sx {
 		}
 		switch k := rng.Intn(10); {
 		case k < 6 || len(gatedOpen) == 0:
-			addExec(rng.PickInt(0, 0, 0, 1, 2), rng.Chance(2, 5))
+			if rng.Chance(1, 8) {
+				addExec(rng.PickInt(3, 4), false) // a nil / typed-nil Runnable
+			} else {
+				addExec(rng.PickInt(0, 0, 0, 1, 2), rng.Chance(2, 5))
+			}
 		case k < 9:
 			j := rng.Intn(len(gatedOpen))
 			ops = append(ops, Ints(1, int64(gatedOpen[j])))
